@@ -74,7 +74,7 @@ func (p *parser) parse() (e *expr.Expression, err error) {
 
 			// edge case for a single literal in the expression and a default field specified
 			if final.Op == expr.Literal && p.defaultField != "" {
-				final = expr.Expr(p.defaultField, expr.Equals, final.Left)
+				final = expr.Expr(p.defaultField, expr.Equals, final)
 			}
 			// the same for a single wildcard or regexp term
 			if (final.Op == expr.Wild || final.Op == expr.Regexp) && p.defaultField != "" {
